@@ -259,6 +259,24 @@ func c14History(c *Ctx, idx int) {
 			if !barrier() {
 				return
 			}
+		case x >= 63 && x < 68 && len(clients) > len(beds):
+			shape.WriteString("R")
+			// an open client sends another REGISTER (any subset of types): registrations add up, a client that has registered
+			// for SCHEMA_CHANGE once stays a target whatever it registers for later
+			cc := clients[len(beds)+rng.Intn(len(clients)-len(beds))]
+			if cc.zombie || cc.cl.IsClosed() {
+				break
+			}
+			types := subset()
+			if f, err := cc.cl.Call(int16(100+s), &message.Register{EventTypes: types}, 10*time.Second); err == nil && f.OpCode == primitive.OpCodeReady {
+				cc.regTypes = append(cc.regTypes, types...)
+				for _, t := range types {
+					if t == primitive.EventTypeSchemaChange {
+						cc.registered = true
+					}
+				}
+				r.Obs("repeated_registers", 1)
+			}
 		case x >= 58 && x < 63 && len(beds) == 1:
 			shape.WriteString("k")
 			// a burst, and right behind it the control connection ends (FIN after the last event): every event of the burst was
@@ -510,7 +528,7 @@ func runC14(c *Ctx) {
 	r := c.R
 	r.Assume("events are injected only on a control connection that is up; failover is forced between bursts")
 	r.Assume("EVENT frames are framed with the cluster's negotiated version whatever the client's version; content is compared after decoding")
-	r.Require("must_deliveries_checked", "topology_events_injected", "status_events_injected", "control_failovers", "zombie_rounds", "control_failovers_after_failed_refresh", "bursts_followed_by_control_close")
+	r.Require("must_deliveries_checked", "topology_events_injected", "status_events_injected", "control_failovers", "zombie_rounds", "control_failovers_after_failed_refresh", "bursts_followed_by_control_close", "repeated_registers")
 	n := c.Pick(160, 15000)
 	for i := 0; i < n; i++ {
 		if c.Replay != nil && c.Replay["kind"] == "c14" {
